@@ -544,6 +544,13 @@ pub fn check_listings(b: &Built, stdfs: bool) -> CaseResult {
                 if d.len() != list.len() || list.iter().any(|x| !x.starts_with('/') || x == p) {
                     return Err(Failure::new(format!("{}|not-distinct-absolute-or-contains-argument|{}", name, backend), format!("{}({}) = {:?}", name, p, list)));
                 }
+                // name order, directory by directory: the sequence is sorted component-wise (a directory, then what
+                // is below it, then its next sibling) - which is not the byte order of the whole path strings when a
+                // sibling's name continues with a byte below the separator ("a", "a.b", "a-1")
+                let comps = |x: &String| -> Vec<String> { x.split('/').map(|c| c.to_string()).collect() };
+                if list.windows(2).any(|w| comps(&w[0]) > comps(&w[1])) {
+                    return Err(Failure::new(format!("{}|not-in-name-order|{}", name, backend), format!("{}({}) = {:?}", name, p, list)));
+                }
                 // agreement with the type queries for non-link members
                 for x in list {
                     if m.kind(x) == Some(Kind::Link) {
